@@ -125,9 +125,12 @@ def task_search(ctx, module):
 def task_gsearch(ctx, arg):
     """group-law search on the real code (G1 and G2) against the affine chord-and-tangent law"""
     import search_groups
-    drv = get_driver()
+    prof = 'release' if arg == 'release' else 'debug'
+    drv = get_driver(prof)
     t = time.time()
     stats, viols = search_groups.search(drv, ctx.seed, ctx.tier)
+    for v in viols:
+        v['profile'] = prof
     PROP = {'add': ['C04', 'C16'], 'sub': ['C04', 'C16'], 'neg': ['C04', 'C16'], 'double': ['C04'], 'add_assign': ['C04'], 'eq': ['C15', 'C16'], 'to_affine': ['C15', 'C10'],
             'is_zero': ['C15'], 'mul': ['C05', 'C16'], 'affine_new': ['C09']}
     PROP.update({'g1_add': ['C04'], 'g2_add': ['C04'], 'g1_sub': ['C04'], 'g2_sub': ['C04'], 'g1_neg': ['C04'], 'g2_neg': ['C04'],
@@ -167,9 +170,12 @@ def limb_props(fid):
 def task_lsearch(ctx, arg):
     """limb / prime-field / conversion search on the real code against exact integer arithmetic"""
     import search_limbs
-    drv = get_driver()
+    prof = 'release' if arg == 'release' else 'debug'
+    drv = get_driver(prof)
     t = time.time()
     stats, viols = search_limbs.search(drv, ctx.seed, ctx.tier)
+    for v in viols:
+        v['profile'] = prof
     violations = []
     for v in viols:
         violations.append(dict(obligation='limbs/' + v['fid'], props=limb_props(v['fid']), summary='%s(%s...) expected %s observed %s' % (
@@ -184,6 +190,8 @@ def task_csearch(ctx, arg):
     drv = get_driver(arg if arg in ('debug', 'release') else 'debug')
     t = time.time()
     stats, viols = search_codec.search(drv, ctx.seed, ctx.tier)
+    for v in viols:
+        v.setdefault('profile', drv.profile)
     def props(v):
         if 'encode' in v['fid'] or '_to_' in v['fid']:
             return ['C10', 'C16']      # C16: encode/decode round trips are part of every history
@@ -253,8 +261,15 @@ def task_pairsearch(ctx, arg):
         v['failure'] = v['failure'] + '@release'
     for k, n in st2.items():
         stats[k + '@release'] = n
+    key = lambda v: (v['fid'], tuple(v['args']), v['failure'].replace('@release', ''))
+    only_one = set(key(v) for v in viols) ^ set(key(v) for v in viols2)
     viols = viols + viols2
     def props(v):
+        p = props0(v)
+        if key(v) in only_one or 'panic' in v['failure']:
+            p = p + ['C18']      # the two build profiles disagree (or a check fires) on this input
+        return p
+    def props0(v):
         if v['fid'].startswith('gt::') or v['fid'].startswith('lib::gt_'):
             return ['C11', 'C01'] if 'pow' in v['fid'] else ['C11']
         if v['failure'].startswith('identity') or v['failure'].startswith('panic'):
@@ -271,7 +286,7 @@ def task_pairsearch(ctx, arg):
 
 # ---------------------------------------------------------------------------------------------
 # E1: Verus on the mechanically extracted text of the limb layer
-VERUS_PROPS = {'divrem': ['C06', 'C07', 'C12', 'C13'], 'invr': ['C06', 'C07', 'C13'], 'inv': ['C06', 'C07', 'C12', 'C13'], 'fp': ['C06', 'C07', 'C12', 'C13'], 'fpr': ['C06', 'C07', 'C13'],
+VERUS_PROPS = {'divrem': ['C06', 'C07', 'C12', 'C13', 'C18'], 'invr': ['C06', 'C07', 'C13', 'C18'], 'inv': ['C06', 'C07', 'C12', 'C13'], 'fp': ['C06', 'C07', 'C12', 'C13'], 'fpr': ['C06', 'C07', 'C13'],
                'mul': ['C06', 'C07', 'C12', 'C13'], 'sop': ['C06', 'C07', 'C12', 'C13'], 'square': ['C06', 'C07', 'C12']}
 
 # ---------------------------------------------------------------------------------------------
@@ -322,9 +337,9 @@ def task_rsearch(ctx, arg):
 
 HANDOVER_LAYERS = {
     # layer -> (tasks whose refutations are imported, description)
-    'limbs': (['verus:divrem', 'verus:invr', 'kani:field_linear'], 'Fq/Fr ring-operation contracts (E1 Verus chains + E2 field-level Kani; decided under C06/C07/C12/C13)'),
+    'limbs': (['verus:divrem', 'verus:invr', 'kani:limbs_linear', 'kani:field_linear', 'lsearch:all', 'lsearch:release'], 'Fq/Fr ring-operation contracts (E1 Verus chains + E2 field-level Kani; decided under C06/C07/C12/C13)'),
     'tower': (['mirvc:specs_tower', 'search:specs_tower'], 'Fq2/Fq4/Fq12 operation contracts (E3 obligations of fq2.rs / fq4.rs / fq12.rs; decided under C12/C17)'),
-    'groups': (['mirvc:specs_groups', 'gsearch:all'], 'group-law contracts of G<P> (E3 obligations of groups.rs; decided under C04/C15/C09)'),
+    'groups': (['mirvc:specs_groups', 'gsearch:all', 'gsearch:release'], 'group-law contracts of G<P> (E3 obligations of groups.rs; decided under C04/C15/C09)'),
 }
 
 def task_handover(ctx, arg):
